@@ -224,8 +224,11 @@ func (api *HTTP) handleStatus(res http.ResponseWriter, req *http.Request) {
 		return
 	}
 
-	api.ircServer().ConfigMu.RLock()
-	defer api.ircServer().ConfigMu.RUnlock()
+	// Use one and the same server for locking and reading: FSM.Restore can
+	// replace the server between two api.ircServer() calls.
+	ircServer := api.ircServer()
+	ircServer.ConfigMu.RLock()
+	defer ircServer.ConfigMu.RUnlock()
 	args := struct {
 		Addr               string
 		State              raft.RaftState
@@ -242,9 +245,9 @@ func (api *HTTP) handleStatus(res http.ResponseWriter, req *http.Request) {
 		Leader:             string(api.raftNode.Leader()),
 		Peers:              p,
 		Stats:              api.raftNode.Stats(),
-		Sessions:           api.ircServer().GetSessions(),
+		Sessions:           ircServer.GetSessions(),
 		GetMessageRequests: api.copyGetMessagesRequests(),
-		NetConfig:          api.ircServer().Config,
+		NetConfig:          ircServer.Config,
 		CurrentLink:        "/status",
 	}
 
